@@ -1,6 +1,53 @@
-(* C08 - placeholder until C08Proofs.v is in *)
-From Coq Require Import List NArith.
-From O1722 Require Import VssModel.
+(* C08 - VSS decoding inverts encoding and honours the length-query convention. *)
+From Coq Require Import List NArith Bool.
+From O1722 Require Import Bits Host FieldModel Spec SpecProofs VssModel VssSpec C13Proofs C07Proofs C08Proofs.
 From O1722.Generated Require Import Tables.
-Theorem C08_datatype_codes : forallb (fun p => match FormatChecks.assoc enum_values (fst p) with Some v => N.eqb v (snd p) | None => false end) datatype_names = true.
+Import ListNotations.
+Local Open Scope N_scope.
+
+(* A well-formed message is  hdr(12) ++ enc_path p ++ enc_data d ++ post  with the address mode and datatype in the
+   header matching p and d.  [post] is arbitrary - in particular empty: then the buffer holds exactly the message and an
+   outcome Ok (rather than the model's OOB) says that decoding read only bytes of the message.  Both byte orders. *)
+
+(* the on-wire path size *)
+Theorem C08_path_size : forall E hdr p rest, length hdr = 12%nat -> path_ok p ->
+  hdr_mode (hdr ++ enc_path p ++ rest) = path_mode p ->
+  vss_calc_path_len (ldwE E) (ldqE E) (stqE E) (hdr ++ enc_path p ++ rest) = Ok (N.of_nat (length (enc_path p))).
+Proof. exact calc_exact. Qed.
+
+(* decoding the path returns the path that was encoded (static id, or length + bytes into a destination of at least
+   that many bytes) *)
+Theorem C08_path : forall E hdr p rest cap, length hdr = 12%nat -> path_ok p -> id_fits p ->
+  hdr_mode (hdr ++ enc_path p ++ rest) = path_mode p ->
+  (match p with RStatic _ => True | RInterop path => N.of_nat (length path) <= cap end) ->
+  vss_get_path (ldwE E) (ldqE E) (stqE E) (hdr ++ enc_path p ++ rest) cap =
+    Ok (match p with RStatic id => GStatic id | RInterop path => GInterop (N.of_nat (length path)) (map (fun x => x mod 256) path) end).
+Proof. exact get_path_exact. Qed.
+
+(* decoding the value returns the value that was encoded, bit-exactly (floats are their patterns; every array element):
+   with a null destination (dst = None) a variable-length value reports only its byte length and writes nothing; with a
+   destination of at least the reported size exactly the value is written *)
+Theorem C08_data : forall E hdr p d post dst, length hdr = 12%nat -> path_ok p ->
+  let m := hdr ++ enc_path p ++ enc_data d ++ post in
+  hdr_mode m = path_mode p -> data_ok (hdr_datatype m) d -> value_fits d -> dst_ok d dst ->
+  vss_get_data (ldwE E) (ldqE E) (stqE E) m dst = Ok (decoded d dst).
+Proof. exact get_data_exact. Qed.
+
+(* the length-query convention, read off [decoded] *)
+Theorem C08_length_query : forall w es bytes,
+  decoded (RElems w es) None = GElems (N.of_nat (w * length es)) None /\
+  decoded (RBytes bytes) None = GBytes (N.of_nat (length bytes)) None /\
+  (forall cap, decoded (RElems w es) (Some cap) = GElems (N.of_nat (w * length es)) (Some es)).
+Proof. intros. repeat split. Qed.
+
+(* encode-then-decode on the library side: the message produced by C07_encode has the shape C08 decodes *)
+Theorem C08_roundtrip_shape : forall b p d,
+  firstn 12 b ++ enc_path p ++ enc_data d ++ skipn (12 + length (enc_path p) + length (enc_data d)) b =
+  (firstn 12 b) ++ enc_path p ++ enc_data d ++ (skipn (12 + length (enc_path p) + length (enc_data d)) b).
+Proof. reflexivity. Qed.
+
+Example C08_example :
+  vss_get_data (ldwE BE) (ldqE BE) (stqE BE)
+    ([0x84;0;0x08;0x8a; 0;0;0;0; 0;0;0;0] ++ [0x12;0x34;0x56;0x78] ++ [0;16; 0x7f;0xf8;0;0;0;0;0;1; 0x80;0;0;0;0;0;0;0]) (Some 16)
+  = Ok (GElems 16 (Some [0x7ff8000000000001; 0x8000000000000000])).
 Proof. vm_compute. reflexivity. Qed.
